@@ -56,6 +56,9 @@ const (
 	cacheFileMagic   = "P2CC"
 	cacheFileVersion = 1
 
+	// the cleaned up copy of a cache file is written under this suffix before it replaces the file
+	cacheFileTmpSuffix = ".tmp"
+
 	// set in the stream id of a record in the file when the record is invalidated
 	invalidatedStreamFlag = uint64(1) << 63
 )
@@ -222,6 +225,8 @@ func skipStream(buffer *bufio.Reader) (uint64, error) {
 }
 
 func NewCacheFile(cachePath string) (*cacheFile, error) {
+	// a cleanup that was interrupted leaves its unfinished copy behind
+	_ = os.Remove(cachePath + cacheFileTmpSuffix)
 	file, err := os.OpenFile(cachePath, os.O_CREATE|os.O_RDWR, 0644)
 	if err != nil {
 		return nil, fmt.Errorf("failed to open cache file: %w", err)
@@ -330,8 +335,8 @@ func NewCacheFile(cachePath string) (*cacheFile, error) {
 		}
 	}
 
-	// Keep the file pointer at the end of the file.
-	if _, err := file.Seek(0, io.SeekEnd); err != nil {
+	// Keep the file pointer at the end of the file (the cleanup replaces the file).
+	if _, err := res.file.Seek(0, io.SeekEnd); err != nil {
 		return nil, fmt.Errorf("failed to seek to end of file: %w", err)
 	}
 
@@ -564,12 +569,28 @@ func (cachefile *cacheFile) DataForSearch(streamID uint64) ([2][]byte, [][2]int,
 
 func (cachefile *cacheFile) truncateFile() error {
 	// cleanup the file by skipping all old streams
-	if _, err := cachefile.file.Seek(cachefile.freeStart, io.SeekStart); err != nil {
-		return fmt.Errorf("failed to seek to free start: %w", err)
+	// The cleaned up copy is written to a new file that replaces the old one once it is complete.
+	// Moving the records down inside the file would leave a mix of old and new bytes behind
+	// when the process is killed half-way, and the next start would serve that as stream data.
+	tmpPath := cachefile.cachePath + cacheFileTmpSuffix
+	tmpFile, err := os.OpenFile(tmpPath, os.O_CREATE|os.O_TRUNC|os.O_RDWR, 0644)
+	if err != nil {
+		return fmt.Errorf("failed to create temporary cache file: %w", err)
+	}
+	replaced := false
+	defer func() {
+		if !replaced {
+			_ = tmpFile.Close()
+			_ = os.Remove(tmpPath)
+		}
+	}()
+	// everything in front of the first free record is kept as it is
+	if _, err := io.Copy(tmpFile, io.NewSectionReader(cachefile.file, 0, cachefile.freeStart)); err != nil {
+		return fmt.Errorf("failed to copy the start of the cache file: %w", err)
 	}
 
 	reader := bufio.NewReader(io.NewSectionReader(cachefile.file, cachefile.freeStart, cachefile.fileSize-cachefile.freeStart))
-	writer := bufio.NewWriter(cachefile.file)
+	writer := bufio.NewWriter(tmpFile)
 
 	newFilesize := cachefile.freeStart
 	header := converterStreamSection{}
@@ -605,6 +626,12 @@ func (cachefile *cacheFile) truncateFile() error {
 	if err := writer.Flush(); err != nil {
 		return fmt.Errorf("failed to flush writer: %w", err)
 	}
+	if err := os.Rename(tmpPath, cachefile.cachePath); err != nil {
+		return fmt.Errorf("failed to replace the cache file: %w", err)
+	}
+	replaced = true
+	_ = cachefile.file.Close()
+	cachefile.file = tmpFile
 	cachefile.fileSize = newFilesize
 	if _, err := cachefile.file.Seek(cachefile.fileSize, io.SeekStart); err != nil {
 		return fmt.Errorf("failed to seek to end of file: %w", err)
